@@ -64,7 +64,7 @@ def load_program(crates, decl_crates=('canister', 'types', 'interface', 'validat
         prog.src.load_crate(CRATES[c][2], CRATES[c][1])
     for c in crates:
         path, secs = gen_mir(c)
-        prog.load_mir(path, c)
+        prog.load_mir(path, CRATES[c][2])
         info[c] = dict(mir_lines=sum(1 for _ in open(path)), mir_gen_s=secs, source_sha=source_hash(c))
     prog.info = info
     return prog
